@@ -187,6 +187,12 @@ pub fn run_history(rec: &mut Recorder, seed: u64, hidx: u64, len: usize, nkeys: 
             Op::Flush => rec.count("op.flush"),
             Op::Compact(..) => rec.count("op.compact"),
             Op::Reopen => rec.count("op.reopen"),
+            Op::Verify => {
+                rec.count("op.verify");
+                if sim.last_verify.starts_with("error") {
+                    rec.case(&format!("# {}", tag), "#", Verdict::Fail { class: taint.clone().unwrap_or_else(|| "verifier-rejects-store-history".to_string()), detail: format!("{} {}", tag, sim.last_verify) }, None);
+                }
+            }
         }
         // chosen compactions: closed on the state they were chosen in?
         let chosen = std::mem::take(&mut sim.chosen);
